@@ -91,7 +91,8 @@ def param_sets(name, sig, rng, how_many, small=False):
 
     # boundary sets first: every period-like parameter at the smallest legal values
     if how_many > 0:
-        for v in (1, 2, 3):
+        for v in (1, 2, 3, 50):
+            # (50: a long memory - what a recursive indicator returns then still depends on candles 200+ bars back)
             kw = {k: v for k, d in defaults.items() if is_period(k.lower(), d)}
             if kw:
                 out.append(kw)
@@ -180,7 +181,15 @@ def scale_of(candles, field_values):
             m = 0.0
     except Exception:
         m = 0.0
-    return max(1.0, float(m))
+    # differences of near-cancelling price-scale quantities (macd of a flat series) carry rounding noise of the PRICE scale
+    try:
+        c = np.asarray(candles, dtype=float)
+        pm = float(np.nanmax(np.abs(c[:, 1:5]))) if c.ndim == 2 and c.shape[1] >= 5 else 0.0
+        if not np.isfinite(pm):
+            pm = 0.0
+    except Exception:
+        pm = 0.0
+    return max(1.0, float(m), pm)
 
 
 def equal_values(a, b, rel=1e-9, absl=1e-12, scale=1.0):
